@@ -146,8 +146,36 @@ func genC03Archive(r *RNG, c *Ctx) c03Archive {
 	return a
 }
 
+// idxgenHdrTable: go-ipld-cbor's verdict on every header LoadIndex can come to decode in this file:
+// the one at the start, and for a CARv2 the one at DataOffset -- read from the rest of the FILE
+// (LoadIndex does not bound its reads by DataSize) and from the DataSize window (the ReaderAt path
+// reads through an io.SectionReader).
+func idxgenHdrTable(file []byte) Val {
+	hdrs := VL{}
+	e, rest, ok := hdrEntry(file)
+	if !ok {
+		return hdrs
+	}
+	hdrs = append(hdrs, e)
+	if len(rest) >= 40 {
+		var h carv2.Header
+		if _, err := h.ReadFrom(bytes.NewReader(rest[:40])); err == nil && h.DataOffset <= uint64(len(file)) {
+			tail := file[h.DataOffset:]
+			if e2, _, ok2 := hdrEntry(tail); ok2 {
+				hdrs = append(hdrs, e2)
+			}
+			if h.DataSize < uint64(len(tail)) {
+				if e3, _, ok3 := hdrEntry(tail[:h.DataSize]); ok3 {
+					hdrs = append(hdrs, e3)
+				}
+			}
+		}
+	}
+	return hdrs
+}
+
 func emitIdxGen(c *Ctx, kind uint64, o gOpts, file []byte, codec uint64, qs []cid.Cid, expect Val, nontrivial bool) {
-	_, hdrs := scanTables(file)
+	hdrs := idxgenHdrTable(file)
 	in := VL{VN(kind), o.val(), VB(file), hdrs, VN(codec), cidsVal(qs), expect}
 	obs := runIdxGenImpl(c, kind, o, file, codec, qs)
 	c.Emit("idxgen", in, obs, nontrivial)
@@ -196,7 +224,7 @@ func c03Malformed(c *Ctx, r *RNG, a c03Archive, qs []cid.Cid, budget int) {
 	noFile := []uint64{0, 1, 2, 4}
 	// truncations: every prefix of a small archive, sampled otherwise
 	for k := 0; k < len(a.file); k++ {
-		if len(a.file) > 120 && !c.Thorough && r.Intn(len(a.file)/40+1) != 0 {
+		if len(a.file) > 120 && !(c.Thorough && len(a.file) <= 400) && r.Intn(len(a.file)/40+1) != 0 {
 			continue
 		}
 		emit(a.file[:k], "truncated", []uint64{pick(r, all), 2})
